@@ -33,7 +33,7 @@ RULE = ("types: every constructor spine over {Vec, HashSet, Option, Result, Hash
         "1-tuple} to depth 2 (quick) / 3 (thorough) ending in each leaf {string, number, boolean, void, (), struct, enum-like name, mapped name}, "
         "plus random types to depth 6, each rendered by the five renderers and placed at a struct field, a parameter, parameter+channel, "
         "channel only (optionally with an enum and a member-less struct) through both real generators; malformed: 400 / 5000 TypeStructure values and mappings outside the feature set "
-        "(unknown primitives, non-identifier names, non-primitive mapping targets, any key type) where only model = implementation for the five renderers is compared; 350 cases with several parameters per command and several commands whose types render alike in one renderer only (Vec/HashSet, T/Result<T>), 300 cases with mapping targets beyond the primitives (unknown, any, number[], Date, Record, tuple, union) at field/parameter/channel position; 15 % of the type cases use serialised names that need quoting as keys and odd enum literals; projects: random graph projects (tools/projgen.py, incl. tuples of generics, renamed fields, raw identifiers), projects with recursive and mutually recursive types beside unrelated roots (digraphs on three structs incl. self-loops, roots through parameter / return / channel / event), projects whose command names derive colliding type names with different parameter lists (declarations judged by occurrence and multiplicity), projects with one struct whose fields sample the cross product validator attribute x mapped type (primitive / non-primitive target) x Option x serde rename / skip, event projects (several emit sites per event name with different payload types, nested payload dependencies, several files), type_mappings whose keys are external names or project-defined types, and an oracle-only stream crossing defaultParameterCase / defaultFieldCase / includePrivate / typeMappings with both modes, generated by the "
+        "(unknown primitives, non-identifier names, non-primitive mapping targets, any key type) where only model = implementation for the five renderers is compared; 350 cases with several parameters per command and several commands whose types render alike in one renderer only (Vec/HashSet, T/Result<T>), 300 cases with mapping targets beyond the primitives (unknown, any, number[], Date, Record, tuple, union) at field/parameter/channel position; 15 % of the type cases use serialised names that need quoting as keys and odd enum literals; projects: random graph projects (tools/projgen.py, incl. tuples of generics, renamed fields, raw identifiers), projects with recursive and mutually recursive types beside unrelated roots (digraphs on three structs incl. self-loops, roots through parameter / return / channel / event), projects whose command names derive colliding type names with different parameter lists (declarations judged by occurrence and multiplicity), projects with one struct whose fields sample the cross product validator attribute x mapped type (primitive / non-primitive target) x Option x serde rename / skip, projects with maps keyed by a project enum / a mapped type / String / integers in fields, Option fields and parameters (key position judged), event projects (several emit sites per event name with different payload types, nested payload dependencies, several files), type_mappings whose keys are external names or project-defined types, and an oracle-only stream crossing defaultParameterCase / defaultFieldCase / includePrivate / typeMappings with both modes, generated by the "
         "real CLI in both modes. Non-trivial = the type has at least one constructor / the project emits at least one struct; "
         "distinct = distinct cases")
 TRUSTED = [
@@ -72,6 +72,8 @@ POSITIONS = {
     "res": lambda t: ["res", t],
     "map_s": lambda t: ["map", STR, t],
     "map_n": lambda t: ["map", NUM, t],
+    "map_enum": lambda t: ["map", ["custom", "Status"], t],          # key = a project type (enum): z.record(StatusSchema, ..)
+    "map_mapped": lambda t: ["map", ["custom", "DateTime"], t],      # key = a (possibly mapped) external name
     "tup0": lambda t: ["tuple", t, NUM],
     "tup1": lambda t: ["tuple", STR, t],
     "tup_single": lambda t: ["tuple", t],
@@ -640,6 +642,36 @@ def gen_cross_project(rng):
     return {"files": {"src/lib.rs": [form] + fns}, "config": {"typeMappings": dict(CROSS_MAP)}}
 
 
+def gen_keyed_project(rng):
+    """HashMap / BTreeMap keyed by a project enum, by a mapped type, by String and by integers (controls), in struct
+    fields, Option fields and command parameters: the KEY position of Record<K, V> / z.record(KSchema, V) is judged"""
+    P = projgen.P
+    keys = [P("Mode"), P("Mode"), P("Uuid"), P("String"), P("i32"), P("u64")]
+    vals = [P("u32"), P("String"), P("Vec", P("String")), P("bool"), P("Entry")]
+    def m():
+        return P(rng.choice(["HashMap", "BTreeMap"]), rng.choice(keys), rng.choice(vals))
+    fields = []
+    for i in range(rng.randint(3, 6)):
+        t = m()
+        c = rng.choice(["plain", "plain", "option", "vec", "nested"])
+        if c == "option":
+            t = P("Option", t)
+        elif c == "vec":
+            t = P("Vec", t)
+        elif c == "nested":
+            t = P("HashMap", rng.choice(keys), t)
+        fields.append({"name": "m%d" % i, "ty": t, "serde": [], "validate": []})
+    items = [{"kind": "enum", "name": "Mode", "derives": ["Serialize", "Deserialize"], "serde": [],
+              "variants": [{"name": v, "serde": []} for v in ["Fast", "Slow", "Off"]]},
+             {"kind": "struct", "name": "Entry", "derives": ["Serialize", "Deserialize"], "serde": [],
+              "fields": [{"name": "n", "ty": P("u8"), "serde": [], "validate": []}]},
+             {"kind": "struct", "name": "Table", "derives": ["Serialize", "Deserialize"], "serde": [], "fields": fields},
+             {"kind": "fn", "name": "save", "attrs": [["tauri", "command"]], "async": False, "vis": "pub",
+              "params": [{"name": "table", "ty": P("Table")}, {"name": "by_mode", "ty": m()}, {"name": "maybe", "ty": P("Option", m())}],
+              "ret": m(), "body": []}]
+    return {"files": {"src/lib.rs": items}, "config": {"typeMappings": {"Uuid": "string"}}}
+
+
 COLLIDING = [["get_user2", "get_user_2"], ["save", "save"], ["load_it", "loadIt"], ["fetch_all", "fetchAll", "fetch_all"], ["ping", "Ping"]]
 
 
@@ -689,6 +721,8 @@ def project_cases(tier, rng):
         cases.append({"id": "collide-%d" % i, "project": gen_collision_project(rng), "clean": False})
     for i in range(n // 3):
         cases.append({"id": "cross-%d" % i, "project": gen_cross_project(rng), "clean": False})
+    for i in range(n // 4):
+        cases.append({"id": "keyed-%d" % i, "project": gen_keyed_project(rng), "clean": False})
     for i in range(n // 4):
         c = gen_event_project(rng)
         if rng.random() < 0.3:
